@@ -965,9 +965,10 @@ def set_length_range(m: types.Model, d: types.Data, index: int = -1):
   if m.nu == 0:
     return
 
+  # one slice per batch entry of the output field (it may be unbatched, i.e. hold a single slice)
   wp.launch(
     _set_length_range,
-    dim=(d.nworld, m.nu),
+    dim=(m.actuator_lengthrange.shape[0], m.nu),
     inputs=[
       m.actuator_trntype,
       m.actuator_trnid,
